@@ -226,7 +226,7 @@ func (c *FnCtx) define(hint, sort, body string) string {
 		return body
 	}
 	n := c.fresh(hint)
-	if sort == sInt && strings.Contains(body, "(ite ") {
+	if (sort == sInt && strings.Contains(body, "(ite ")) || strings.HasPrefix(body, "(ite ") {
 		// conditional integer terms (wrap-around arithmetic, merges) are named constants too:
 		// expanded as macros they would put 'ite' inside quantifier patterns
 		c.cmds = append(c.cmds, cmd{kind: cDeclare, name: n, sort: sort})
